@@ -53,7 +53,8 @@ theorem isEmptyValue_eq : ∀ (v : GoVal), KindOK v = true → isEmptyValue v = 
   | .ptr u n e, _ => by cases u <;> simp [isEmptyValue, isEmptySpec, kindOf, strip, emptyBranch]
   | .iface w, _ => by cases w <;> simp [isEmptyValue, isEmptySpec, kindOf, strip, emptyBranch]
   | .nil, _ => by simp [isEmptyValue, isEmptySpec, kindOf, strip, emptyBranch]
-  | .time _ _, _ => by simp [isEmptyValue, isEmptySpec, kindOf, strip, emptyBranch]
+  | .time _, _ => by simp [isEmptyValue, isEmptySpec, kindOf, strip, emptyBranch]
+  | .nbytes n b, _ => by simp [isEmptyValue, isEmptySpec, kindOf, strip, emptyBranch]
   | .bool b, _ => by simp [isEmptyValue, isEmptySpec, kindOf, strip, emptyBranch]
   | .str s, _ => by simp [isEmptyValue, isEmptySpec, kindOf, strip, emptyBranch]
   | .bytes n b, _ => by simp [isEmptyValue, isEmptySpec, kindOf, strip, emptyBranch]
@@ -186,7 +187,7 @@ theorem parseTagValue_no_fault (tag : Bytes) : ∀ f, parseTagValue tag ≠ .err
 
 /-- the struct loop keeps a field exactly when the specification does, under the same name -/
 theorem fieldDecision_eq (f : Field) (v : GoVal) (he : f.exported = true) (hk : KindOK v = true) :
-    fieldDecision f v = .ok (fieldName f v) := by
+    fieldDecision f v = .ok (fieldName false f v) := by
   unfold fieldDecision fieldName
   simp only [he, Bool.not_true, Bool.false_eq_true, if_false]
   by_cases h1 : f.tag.isEmpty
